@@ -16,6 +16,13 @@ Three bounded exhaustive explorations on the real code (engine: gridmc; nothing 
     multislater._calc_overlap is compared on a walker product grid with
         sum_i c_i <A_i B_i|phi>     (alpha-string x beta-string sign convention, mc/fock.py).
     Equality with one common oracle IS invariance across order / reference / cut-off / source.
+    Walker grids: the full product grid (2 non-real letters per entry) up to 4096 points; beyond that its lower
+    set {digit sum <= n_up+n_dn}.  The overlap (and <psi|H|phi>) is homogeneous of total degree n_up+n_dn in the
+    walker entries, and a lower set of a product grid is unisolvent for the polynomials with exponents in it, so
+    the lower set decides the same identity with ~2.5e3 instead of 6.5e4 points (4 orbitals, 2+2 electrons).
+    A failure is attributed to one call site: the plain route if the list already fails there, otherwise to what
+    the variant adds (read_dets / get_fci_state / the ndets argument / a cut-off above the needed one); failures
+    of (2) and (3) downstream of a failing representation are reported under that signature (see `attribute`).
 
 (2) zero variance.  For exact eigenvectors of generic symmetric Hamiltonians (diagonalisation of the Fock
     model's H) and of H2 / H4 / LiH (pyscf FCI -> get_fci_state), for every reference determinant with a
@@ -380,7 +387,7 @@ def job_repr(cfg):
                             try:
                                 trial, wd = build_wave_data(source, n, na, nb, its, need + extra, ndets, tmpdir=tmp)
                             except Exception as e:  # the library refusing a legitimate list
-                                found.append((order, "%s/raises-%s/%s" % (SITE[source], type(e).__name__, kind), case,
+                                found.append((order, "%s/raises-%s" % (SITE[source], type(e).__name__), case,
                                               dict(error=repr(e)[:300])))
                                 continue
                             entries.append(dict(order=order, kind=kind, label=label, source=source, ndets=ndets, extra=extra,
@@ -682,7 +689,6 @@ def _zv_one(res, cfg, spec):
     # max_refs references for the other eigenvectors of the larger spaces
     full = spec.get("eig", 0) == 0 or len(sysd["items"]) <= 9
     refs = references(sysd["items"], cfg.get("max_refs") if not (full and cfg["tier"] == "thorough") else cfg.get("max_refs_ground"))
-    kind = spec["sys"] if spec["sys"] == "rand" else "molecule"
     first = True
     for ref in refs:
         for mode in cfg["modes"]:
@@ -713,10 +719,8 @@ def _zv_one(res, cfg, spec):
                 res.violation(sig_o if bo is not None else "multislater.calc_energy/exact-trial-local-energy/%s" % mode, dict(case, point=b),
                               dict(impl=E[b], E_exact=E0, err=float(err[b]), tol=TOL_E, n_bad=int((~(err <= TOL_E)).sum()), n_points=P,
                                    overlap=Oref[b], walker_up=Va[b], walker_dn=Vb[b]))
-            b = bo
-            if b is not None:
-                res.violation(sig_o, dict(case, point=b, what="overlap"),
-                              dict(impl=O[b], ref=Oref[b], relerr=float(eo[b])))
+            if bo is not None:
+                res.violation(sig_o, dict(case, point=bo, what="overlap"), dict(impl=O[bo], ref=Oref[bo], relerr=float(eo[bo])))
             if first:
                 # control: the same list with one sign flipped is not an eigenvector and must NOT pass
                 first = False
@@ -727,7 +731,6 @@ def _zv_one(res, cfg, spec):
                         res.guard("control_inexact_trial_deviates")
                 res.sample(dict(part="zero-variance", system=spec, n=n, nelec=[na, nb], E_exact=E0, n_dets=len(sysd["items"]),
                                 reference=[list(ref[0]), list(ref[1])], mode=mode, grid_points=P, max_err=float(err.max())))
-    return
 
 
 def replay_zv(case):
@@ -820,8 +823,7 @@ def job_driver(cfg):
         res.guard("driver_cells_without_admissible_reference")
         return res
     items = with_reference(sysd["items"], ref)
-    kind = spec["sys"] if spec["sys"] == "rand" else "molecule"
-    weights = []
+    weights, energies = [], []
     for seed in cell["seeds"]:
         case = dict(part="driver", spec=spec, cell=dict(cell, seeds=[int(seed)]), seed=cfg["seed"])
         try:
@@ -836,6 +838,7 @@ def job_driver(cfg):
         for what, detail in driver_verdict(sysd, cell, seed, e, raw):
             res.violation("driver.afqmc/%s" % what, case, detail)
         weights.append(raw[:, 0])
+        energies.append(raw[:, 1])
         res.nontrivial_values((repr(sorted(spec.items())), repr(sorted(cell.items())), int(seed)), raw[:, 0], 6)
     if weights:
         w = np.concatenate(weights)
@@ -849,7 +852,7 @@ def job_driver(cfg):
         except Exception:
             pass
         res.sample(dict(part="driver", system=spec, cell=cell, E_exact=sysd["E"], reference=[list(ref[0]), list(ref[1])],
-                        last_block_energies=raw[:, 1] if False else None, weights_first_run=weights[0]))
+                        block_energies_first_run=energies[0], block_weights_first_run=weights[0]))
     return res
 
 
